@@ -101,6 +101,9 @@ type TunClient struct {
 	ConnID    string
 	XFF       string
 	AuthHdr   string // Authorization header value ("" = none)
+	// AuthFn, when set, yields the Authorization value per connection (Kerberos tokens must
+	// not be replayed, so each connection needs a fresh one)
+	AuthFn func(role string) string
 	ExtraHdr  string
 	GWAddr    string
 
@@ -165,6 +168,10 @@ func (c *TunClient) start(role string, e *sim.End, mk func(auth string) []byte) 
 	if c.NTLMUser != "" {
 		c.ntlmStage[role] = 1
 		e.Send(mk(c.scheme() + " " + base64.StdEncoding.EncodeToString(codec.NTLMNegotiate())))
+		return
+	}
+	if c.AuthFn != nil {
+		e.Send(mk(c.AuthFn(role)))
 		return
 	}
 	e.Send(mk(""))
